@@ -186,8 +186,12 @@ def main_for(prop, run, argv=None):
         paths = ctx.write_replays()
         for p in paths:
             print("VIOLATION property=%s replay=%s" % (prop, p))
-        for v in ctx.violations[:5]:
-            print("  ", json.dumps(v["facts"], default=str)[:600])
+        hist = {}
+        for v in ctx.violations:
+            k = json.dumps(v["facts"], sort_keys=True, default=str)
+            hist[k] = hist.get(k, 0) + 1
+        for k, n in sorted(hist.items(), key=lambda kv: -kv[1])[:12]:
+            print("   %5d x %s" % (n, k[:400]))
         print("%s: %d violation(s) [%d distinct replay file(s)]" % (prop, len(ctx.violations), len(paths)))
         return 1
     print("%s %s: held — states=%d transitions=%d traces=%d divergences=%d wall=%.1fs" % (
